@@ -236,6 +236,64 @@ impl Sub for ExpiryDefault {
   }
 }
 
+// ---------------------------------------------------------------- a builder that is kept for a while before it builds
+
+#[derive(Clone, Debug, Serialize, Deserialize)]
+pub struct SlowCase {
+  pub proto: Proto,
+  /// milliseconds between PasetoBuilder::default() and the first build, and between the two builds
+  pub wait_ms: u32,
+}
+
+pub struct LongLivedBuilder;
+
+impl Sub for LongLivedBuilder {
+  type Case = SlowCase;
+  fn name(&self) -> String {
+    "C13/long-lived-builder".into()
+  }
+  fn check(&self, c: &SlowCase, cl: &mut Classes) -> Verdict {
+    let p = c.proto;
+    let km = keys::material(p, &[8u8; 32]);
+    let lk = km.lib().expect("valid key");
+    let t0 = tgen::now();
+    let mut b = new_builder(p, Layer::Prelude);
+    let t1 = tgen::now();
+    cl.tag(p.label());
+    cl.nontrivial(true);
+    let mut seen: Vec<Value> = vec![];
+    for round in 0..2 {
+      std::thread::sleep(std::time::Duration::from_millis(c.wait_ms as u64));
+      let token = match b.build(&lk) {
+        Ok(t) => t,
+        Err(e) => vio!("C13:build-failed:long-lived"; "build #{} of a default builder failed: {}", round + 1, e.text),
+      };
+      let v = match layer_parse(p, Layer::Generic, &lk, &token, None, None) {
+        Ok(crate::rt::LayerOut::Json(v)) => v,
+        _ => vio!("C13:unreadable-token:{}", p.label(); "token of build #{} cannot be read back", round + 1),
+      };
+      let get = |k: &str| v.get(k).and_then(|x| x.as_str()).and_then(tgen::parse_rfc3339);
+      let (iat, nbf, exp) = (get("iat"), get("nbf"), get("exp"));
+      match (iat, nbf, exp) {
+        (Some(i), Some(n), Some(e)) => {
+          if !within(i, t0, t1, 0) || n != i {
+            vio!("C13:default-iat-not-creation-time:long-lived"; "build #{} made {} ms after the builder was created carries iat {:?} / nbf {:?}; the builder was created in [{:?}, {:?}] — payload {}", round + 1, c.wait_ms * (round + 1), i, n, t0, t1, v);
+          }
+          if e != (i.0 + 3600, i.1) {
+            vio!("C13:default-exp-not-one-hour:long-lived"; "exp {:?} is not iat {:?} + 3600 s — payload {}", e, i, v);
+          }
+        }
+        _ => vio!("C13:exp-missing:long-lived"; "default time claims missing in payload {}", v),
+      }
+      seen.push(v);
+    }
+    if seen[0] != seen[1] {
+      vio!("C13:builds-disagree:long-lived"; "two builds of one untouched builder carry different payloads: {} / {}", seen[0], seen[1]);
+    }
+    Verdict::Pass
+  }
+}
+
 /// the 9-letter operation alphabet of the exhaustive part; `n` makes repeated values distinct
 pub fn alphabet_op(letter: usize, n: usize) -> BOp {
   match letter {
@@ -301,6 +359,8 @@ pub fn random_op() -> BoxedStrategy<BOp> {
     1 => gen::short_text().prop_map(|t| BOp::Set(ClaimSpec::Aud(t.render()))),
     1 => gen::short_text().prop_map(|t| BOp::Set(ClaimSpec::Jti(t.render()))),
     3 => ("[a-d]", gen::json_leaf()).prop_map(|(k, v)| BOp::Set(ClaimSpec::Custom(k, v))),
+    // a payload beyond 64 KiB
+    1 => (0u32..3).prop_map(|i| BOp::Set(ClaimSpec::Custom("blob".into(), Value::String("b".repeat([65_536usize, 70_000, 200_000][i as usize]))))),
     3 => Just(BOp::Ack),
     2 => gen::jsonish(8).prop_map(BOp::Footer),
     2 => gen::jsonish(8).prop_map(BOp::Assertion),
@@ -322,13 +382,21 @@ fn all_subs() -> Vec<ExpiryDefault> {
 }
 
 pub fn subs() -> Vec<Box<dyn DynSub>> {
-  all_subs().into_iter().map(|s| Box::new(s) as Box<dyn DynSub>).collect()
+  let mut v: Vec<Box<dyn DynSub>> = all_subs().into_iter().map(|s| Box::new(s) as Box<dyn DynSub>).collect();
+  v.push(Box::new(LongLivedBuilder));
+  v
 }
 
 pub fn run(ctx: &Ctx) -> EvidenceMeta {
   let subs = all_subs();
   let max_len = ctx.n(5, 6) as usize;
   let mut jobs: Vec<Job> = vec![];
+  // builders that wait before building (each case sleeps; they run side by side with everything else)
+  let slow = &LongLivedBuilder;
+  let waits: Vec<(Proto, u32)> = if ctx.quick() { vec![(Proto::V4L, 5600), (Proto::V2P, 3100)] } else { vec![(Proto::V4L, 5600), (Proto::V2P, 3100), (Proto::V3L, 31_000), (Proto::V4P, 61_000)] };
+  for (proto, wait_ms) in waits {
+    jobs.push(Box::new(move || ctx.enumerate(slow, std::iter::once(SlowCase { proto, wait_ms }), false)));
+  }
   for s in &subs {
     if s.kind == "exhaustive" {
       // split the odometer space over 9 jobs by first letter
